@@ -31,6 +31,8 @@ import (
 //     c:1+2+3    a compaction of the named blocks is uploaded (tsdb.CompactBlockMetas of their metas); enabled
 //                iff all are in the compactor's view = real MetaFetcher[IgnoreDeletionMarkFilter(deleteDelay/2),
 //                DefaultDeduplicateFilter] behind the real compact.Syncer
+//     f:1+2+3    the same compaction, but its upload fails after the first chunk file: a partial block (no meta.json) is left
+//                behind, an id is used up, no block appears; a following m:b:<that id> must be refused
 //     m:b:r      block.MarkForDeletion(b) as Group.compact does after uploading r (enabled iff r is an unmarked
 //                block of higher level that has all sources of the unmarked block b)
 //     g          real Syncer.SyncMetas + Syncer.GarbageCollect
@@ -299,6 +301,30 @@ func (e *protoEnv) act(c *hlib.Ctx, tok string) (ok bool, err error) {
 		nm.Thanos.Source = metadata.CompactorSource
 		e.nextID++
 		return true, e.uploadMeta(nm)
+	case f[0] == "f" && len(f) == 2:
+		// a compaction whose upload fails after the first data object: enabled like c:, leaves a partial block
+		// (a chunk file, no meta.json) that every fetcher has to ignore, and uses up an id
+		ids, good := parsePlus(f[1])
+		if !good {
+			return false, fmt.Errorf("bad action %s", tok)
+		}
+		view, err := e.compactorView()
+		if err != nil {
+			return false, err
+		}
+		seen := map[uint64]bool{}
+		for _, id := range ids {
+			if _, in := view[id]; !in || seen[id] {
+				return false, nil
+			}
+			seen[id] = true
+		}
+		if len(ids) == 0 {
+			return false, nil
+		}
+		dir := idULID(e.nextID).String()
+		e.nextID++
+		return true, e.bkt.Upload(e.ctx, path.Join(dir, "chunks", "000001"), bytes.NewReader([]byte("chunk")))
 	case f[0] == "m" && len(f) == 3:
 		b, err1 := strconv.ParseUint(f[1], 10, 64)
 		r, err2 := strconv.ParseUint(f[2], 10, 64)
@@ -449,6 +475,11 @@ func (e *protoEnv) checkServed(c *hlib.Ctx, after string, step int) bool {
 }
 
 func execC34(c *hlib.Ctx, tok []string) string {
+	if len(tok) > 0 && (tok[0] == "o.c29.run" || tok[0] == "cp.valid") {
+		// the real BucketCompactor under selective object store failures (harness of C29): what a store gateway serves
+		// afterwards is this property's concern as well
+		return execC29(c, tok)
+	}
 	if len(tok) != 6 || tok[0] != "cp.run" {
 		return "bad-op"
 	}
@@ -563,8 +594,22 @@ func (s *simState) unmarkedUncovered() []uint64 {
 	return out
 }
 
+// realCompactorUnderFaults: a few runs of the real BucketCompactor (C29's harness) with selective object store failures.
+func realCompactorUnderFaults(c *hlib.Ctx) {
+	sc := c29Scenario{ranges: "1000,3000", name: "aligned",
+		blocks: []c29Block{{0, 1000, 5, 0}, {1000, 2000, 3, 0}, {2000, 3000, 6, 0}, {3000, 4000, 1, 0}}}
+	for _, f := range []string{"d:0", "d:2", "t:4"} {
+		out := c.Do(sc.faultOp(105, f), true)
+		c.Count("real-compactor-fault-run:" + f[:1])
+		if _, ev := parseC29Answer(out); ev != "" && ev != "-" {
+			c.Do(fmt.Sprintf("cp.valid %d %s", 105, ev), true)
+		}
+	}
+}
+
 func genC34(c *hlib.Ctx) {
 	r := c.R
+	realCompactorUnderFaults(c)
 	n := c.N(700, 6000)
 	if c.Tier == "search" {
 		n = 1500 // the search after a broken proof/tie: a bounded extra budget
@@ -637,6 +682,19 @@ func genC34(c *hlib.Ctx) {
 				}
 				if cnt == 1 {
 					c.Count("gen:single-block-compaction")
+				}
+				if r.Chance(1, 7) {
+					// the upload of the result fails: nothing may be marked on its behalf
+					emit("f:" + joinPlus(ids))
+					c.Count("gen:failed-upload")
+					res := sim.next
+					sim.next++
+					for _, id := range ids {
+						if r.Chance(1, 2) {
+							emit(fmt.Sprintf("m:%d:%d", id, res))
+						}
+					}
+					continue
 				}
 				emit("c:" + joinPlus(ids))
 				sim.blocks = append(sim.blocks, simBlk{id: sim.next, level: lvl + 1, src: uniq(src), mark: -1})
